@@ -1,12 +1,53 @@
 PROP = dict(
     unclaimed=True,
     module="M3d.Props.C20",
-    corr=dict(quick=150, thorough=1200),
+    corr=dict(quick=600, thorough=5000),
     gen=[],
-    corr_theorems="placeholder",
-    rule="placeholder",
-    trusted=[],
-    assumptions=[],
-    level_text="placeholder",
-    level_note="placeholder",
+    corr_theorems=(
+        "estq/estf: M3d.C20.pixel_is_mean (+ early_stop_only_when_converged) — the driver prints meanOf(the samples actually drawn) and their number; "
+        "varq/varf/rvarf: variance_unbiased_form; map/img: coords_row_major, each_pixel_once, image_independent_of_schedule, "
+        "constant_stream_mean, uniform_emitter_radiance; castq/camf: uncast_cast_id, matrix_inverse_correct; dircam: directional_camera_contains; "
+        "treeq/treef/joinf/bvhf: joined_cast_is_nearest, filtered_cast_sound, bvh_cast_is_nearest; "
+        "treeq/treef/xprim: translated_cast_conj, matrix_cast_conj, matrix_normal_conformal"
+    ),
+    rule=(
+        "per seed: estimateColor of RecursiveRayTracer and BidirPathTracer through the verif hook with a scripted radiance stream "
+        "(NumSamples 1..64, MinSamples 0..10, no check / MaxStddev (+OversaturatedStddevs) / scripted custom Convergence, antialias 0/.25/.5/1/2; "
+        "dyadic streams compared as exact rationals when the count is a power of two, arbitrary doubles bit-for-bit incl. the statistics handed to Convergence; "
+        "every traced ray compared with caster(x+jitter) from the same generator seed); estimateVariance / RayVariance; mapCoordinates at GOMAXPROCS 1..16 "
+        "and sizes 0..12; Camera axes/Caster/Uncaster on NewCameraAt, orthonormal and skew cameras, all aspect ratios, six fields of view; DirectionalCamera "
+        "on random boxes for seven fields of view; random wrapper trees (Joined/Filtered/Translate/MatrixMultiply/Rotate/Scale) over probe leaves whose "
+        "answer is an affine function of the ray they receive (exact over Q with monomial power-of-two matrices, bit-for-bit over doubles otherwise); "
+        "JoinedObject and BVHToObject over real Sphere/Rect/Triangle parts incl. duplicates; wrappers of real primitives vs the transformed primitive built "
+        "directly (dyadic data); whole images (RayCaster, RecursiveRayTracer, BidirPathTracer) of closed uniform emitters at GOMAXPROCS 1..16. "
+        "distinct = distinct operation lines; non-trivial = early stop taken, >1 worker received, hit found, matrix wrapper present (see #stat counters)"
+    ),
+    trusted=[
+        "modelled, not verified: float64 arithmetic is related to the field the theorems are proved over only through the two executions of the same generic model (Rat: exact on dyadic inputs; Float: bit-for-bit)",
+        "modelled, not verified: the Go channel + WaitGroup of mapCoordinates as 'every queued entry is received by exactly one worker' (any assignment of queue positions to workers); scheduler, memory model and data-race freedom of img.Data[idx] writes belong to C13",
+        "math.Tan (field of view -> plane distance), math.Sqrt and math/rand are parameters of the models (pd, sqrt, draw); Object.Cast of leaf primitives (Sphere/Rect/Triangle intersection, C07) is an oracle — the wrappers are proved correct relative to it",
+        "BidirPathTracer.rayColor (path sampling, multiple-importance weights) and materials/lights (C19) are not modelled; the bidirectional tracer is covered through the shared sampling loop (hook) and through uniform-emitter images only",
+        "DirectionalCamera's bisection is tied through its proved postcondition (the returned camera contains the box), not step by step",
+    ],
+    assumptions=[
+        "NaN/Inf radiance samples and NaN ray data are excluded",
+        "uncast_cast_id needs non-parallel screen axes, positive image size, tan(fov/2) finite non-zero, and the point in front of the camera (t > 0)",
+        "bvh_cast_is_nearest assumes each branch's bounding collider is hit by every ray that hits a leaf below it (checked on real Rect bounds by the bvhf kind)",
+        "matrix_normal_conformal covers rotations composed with uniform scalings (what Rotate/Scale produce); for a general MatrixMultiply matrix the reported normal m·n is not the geometric normal (outside the property statement)",
+    ],
+    level_text=(
+        "Lean 4 theorems over every linearly ordered field, for all inputs: the sampling loop shared by both ray tracers returns exactly the arithmetic mean of "
+        "the samples it drew and their number for every stream, NumSamples>=1, MinSamples and convergence oracle, and stops early only when the oracle said yes "
+        "on the true statistics after max(MinSamples,2) samples; estimateVariance is the unbiased sample variance; mapCoordinates hands every pixel index to exactly "
+        "one worker for every worker count and interleaving and the image does not depend on the schedule; Uncaster inverts Caster for every camera/aspect/fov; "
+        "DirectionalCamera's result contains the box; Joined/Filtered/BVH casts return the nearest hit among the leaves; Translate/MatrixMultiply cast exactly the "
+        "transformed surface (same parameter, image point, conformal normal); a closed uniform emitter renders to its emission. The models are tied to /repo on every "
+        "run by running the real code (hooks under build tag verif) and the same models on generated inputs: equality over Q on dyadic data, bit-for-bit over doubles."
+    ),
+    level_note=(
+        "Proved about lean/M3d/Model/Render.lean; the correspondence makes the code agree with the model on the generated cases only. Trusted: Lean kernel, "
+        "propext/Classical.choice/Quot.sound, the Go harness and native driver, libm, the Go runtime's channel semantics. Not covered: BPT path weighting, "
+        "Monte-Carlo convergence of non-constant scenes (statistical), single-lit-matte-surface closed form, image I/O. Two genuine defects were found by this "
+        "check and repaired in /repo (estimateColor count after early stop; DirectionalCamera field of view)."
+    ),
 )
